@@ -17,6 +17,10 @@ pub enum NOp {
     /// move the k-th name created in the first directory into the second one, keeping its long name: the alias it
     /// arrives with must be unique THERE
     MoveTo2 { k: u16 },
+    /// create a name built from the alias the library gave to the k-th name (read from the raw image at that moment):
+    /// the alias with a trailing dot, with a space inside its base, in lower case with a trailing dot, with a space
+    /// before the extension - long names whose own 8.3 form IS an alias that is already taken
+    CreateEcho { k: u16, form: u8 },
 }
 
 #[derive(Clone, Debug, Serialize, Deserialize)]
@@ -113,6 +117,48 @@ pub fn eval(pop: &Population) -> CaseOut {
     let mut max_same_prefix = 0usize;
     let mut max_same_hash = 0usize;
     for (i, op) in pop.ops.iter().enumerate() {
+        // an echo is resolved into an ordinary creation first (the alias comes from the independent decode)
+        let resolved: NOp;
+        let op = if let NOp::CreateEcho { k, form } = op {
+            let mut name: Option<String> = None;
+            if !created.is_empty() {
+                let idx = (*k as usize * created.len()) >> 16;
+                if live[idx] {
+                    let units: Vec<u16> = created[idx].0.encode_utf16().collect();
+                    if let Ok(dec) = dev.with_store(|st| refdec::decode(st, refdec::DecodeOpts::default())) {
+                        let popd = dec.root.entries.iter().find(|e| e.visible_units() == "pop".encode_utf16().collect::<Vec<u16>>()).and_then(|e| e.child.as_ref());
+                        if let Some(e) = popd.and_then(|d| d.entries.iter().find(|e| e.visible_units() == units)) {
+                            let disp: String = refdec::short_display(&e.short, 0).iter().map(|b| *b as char).collect();
+                            if disp.is_ascii() && !disp.is_empty() {
+                                let (base, ext) = match disp.rfind('.') {
+                                    Some(p) => (disp[..p].to_string(), disp[p..].to_string()),
+                                    None => (disp.clone(), String::new()),
+                                };
+                                let cut = 1 + (*k as usize % base.len().max(1)).min(base.len().saturating_sub(1));
+                                name = Some(match form % 6 {
+                                    0 => format!("{}.", disp),
+                                    1 => format!("{} {}{}", &base[..cut.min(base.len())], &base[cut.min(base.len())..], ext),
+                                    2 => format!("{}.", disp.to_lowercase()),
+                                    3 => format!("{} {}", base, ext),
+                                    4 => format!("{}{}.", base.to_lowercase(), ext),
+                                    _ => format!(".{}", disp),
+                                });
+                            }
+                        }
+                    }
+                }
+            }
+            match name {
+                Some(n) => {
+                    *out.classes.entry("echo_names_created".into()).or_insert(0) += 1;
+                    resolved = NOp::Create { name: n, dir: false };
+                    &resolved
+                }
+                None => continue,
+            }
+        } else {
+            op
+        };
         let s = sess.take().unwrap();
         let before = dev.calls();
         dev.with(|d| d.budget = before + 6_000_000);
@@ -135,6 +181,7 @@ pub fn eval(pop: &Population) -> CaseOut {
                         Ok(d2) => d2.create_file(name).map(|_| ()).map_err(|e| format!("{:?}", ek(&e))),
                         Err(e) => Err(format!("{:?}", ek(&e))),
                     },
+                    NOp::CreateEcho { .. } => Ok(()),
                     NOp::MoveTo2 { k } => {
                         if created_c.is_empty() {
                             Ok(())
@@ -217,6 +264,7 @@ pub fn eval(pop: &Population) -> CaseOut {
                 }
             }
             (NOp::MoveTo2 { .. }, Err(_)) => {}
+            (NOp::CreateEcho { .. }, _) => {}
         }
         // oracle on the raw image
         let dec = dev.with_store(|st| refdec::decode(st, refdec::DecodeOpts { read_data: false, ..Default::default() }));
@@ -351,6 +399,10 @@ fn scripted_corner(which: usize, fat: u8, salt: u64) -> Population {
             for i in 0..5u32 {
                 ops.push(NOp::MoveTo2 { k: (i * 13_107 + 100) as u16 });
             }
+            // names that are the aliases just handed out, with a dot or a space added
+            for i in 0..12u32 {
+                ops.push(NOp::CreateEcho { k: (i * 5_461 + salt as u32 * 97) as u16, form: (i % 6) as u8 });
+            }
             // and the dotted twins of one base, in every order of arrival
             for n in [".foo", "foo", "foo.", "foo..", "..foo", ".foo."] {
                 ops.push(NOp::Create { name: n.to_string(), dir: false });
@@ -377,7 +429,7 @@ fn scripted_corner(which: usize, fat: u8, salt: u64) -> Population {
 }
 
 pub fn run(tier: Tier, seed: u64) -> i32 {
-    let rule = "directory populations built through the public API to collide: names sharing the 6-character prefix and extension; families with the same 2-character prefix, extension and 16-bit name hash (found by search) so the hash form overflows and the retry path runs; names that look like generated aliases (PREFIX~1.TXT, AB1F2E~3.TXT); corner families (16 names each with hash 0xFFFF / 0xFFFE / 0x0000 so that the retry path steps the hash across the 16-bit wrap; names whose characters 3..6 spell their own hash arriving as fifth member of their 6-character family); dots, spaces, non-ASCII, characters illegal in 8.3; deletions and re-creations in between; a second directory with aliases of its own and same-name moves into it; one base name with leading / trailing dots and spaces in every order of arrival; after EVERY step refdec checks on the raw image: short names byte-unique per directory, legal 8.3 bytes (upper case, no leading/embedded space), every long-name slot's checksum = checksum of its short entry, no orphan slots; every creation within a 6,000,000 device-call budget; non-trivial = population in which >= 4 live aliases share one ~N prefix form (second stage reached); distinct by hash of the population";
+    let rule = "directory populations built through the public API to collide: names sharing the 6-character prefix and extension; families with the same 2-character prefix, extension and 16-bit name hash (found by search) so the hash form overflows and the retry path runs; names that look like generated aliases (PREFIX~1.TXT, AB1F2E~3.TXT); corner families (16 names each with hash 0xFFFF / 0xFFFE / 0x0000 so that the retry path steps the hash across the 16-bit wrap; names whose characters 3..6 spell their own hash arriving as fifth member of their 6-character family); dots, spaces, non-ASCII, characters illegal in 8.3; deletions and re-creations in between; a second directory with aliases of its own and same-name moves into it; one base name with leading / trailing dots and spaces in every order of arrival; names built from the aliases the library has just handed out (the alias plus a trailing dot, with a space inside, in lower case plus a dot: long names whose own 8.3 form is an alias already taken); after EVERY step refdec checks on the raw image: short names byte-unique per directory, legal 8.3 bytes (upper case, no leading/embedded space), every long-name slot's checksum = checksum of its short entry, no orphan slots; every creation within a 6,000,000 device-call budget; non-trivial = population in which >= 4 live aliases share one ~N prefix form (second stage reached); distinct by hash of the population";
     let mut rep = Report::new("C16", tier, seed, "exploration", rule);
     let mut reg = Block::new("regress");
     for f in run::regress_files("C16") {
@@ -442,7 +494,7 @@ pub fn run(tier: Tier, seed: u64) -> i32 {
             move || {
                 let fam = fam.clone();
                 run::boxed(
-                    (prop::sample::select(vec![12u8, 16, 16, 32]), prop::collection::vec(prop_oneof![9 => (name_strategy(fam.clone()), prop::bool::weighted(0.15)).prop_map(|(name, dir)| NOp::Create { name, dir }), 2 => any::<u16>().prop_map(|k| NOp::Remove { k }), 2 => name_strategy(fam.clone()).prop_map(|name| NOp::CreateIn2 { name }), 1 => any::<u16>().prop_map(|k| NOp::MoveTo2 { k })], 5..120))
+                    (prop::sample::select(vec![12u8, 16, 16, 32]), prop::collection::vec(prop_oneof![9 => (name_strategy(fam.clone()), prop::bool::weighted(0.15)).prop_map(|(name, dir)| NOp::Create { name, dir }), 2 => any::<u16>().prop_map(|k| NOp::Remove { k }), 2 => name_strategy(fam.clone()).prop_map(|name| NOp::CreateIn2 { name }), 1 => any::<u16>().prop_map(|k| NOp::MoveTo2 { k }), 2 => (any::<u16>(), any::<u8>()).prop_map(|(k, form)| NOp::CreateEcho { k, form })], 5..120))
                         .prop_map(|(fat, ops)| Population { fat, ops }),
                 )
             },
